@@ -249,10 +249,42 @@ def t_floatValue(t):
     return t
 
 
+# Integer numbers of this magnitude or larger are not in the value range of
+# any CIM data type (the largest real64 value is less than 2 ** 1024).
+_INTEGER_LIMIT = 2 ** 1024
+
+
+def _integer_token(t, digits, base):
+    """
+    Set the value of the integer number token t from its digits (a string
+    with optional sign) in the specified base, and return the token.
+
+    If the number is too large for any CIM data type, the token is turned into
+    an error token. This also keeps numbers out of the compiler that Python
+    refuses to convert between int and decimal string (ValueError above a
+    limit of 4300 digits by default).
+    """
+    try:
+        value = int(digits, base)
+    except ValueError:
+        value = None
+    if value is None or abs(value) >= _INTEGER_LIMIT:
+        number = t.value
+        if len(number) > 40:
+            number = number[0:40] + '...'
+        msg = _format("Integer number is too large for any CIM data type: "
+                      "{0!A}", number)
+        t.lexer.last_msg = msg
+        t.type = 'error'
+        # Setting error causes the value to be automatically skipped
+    else:
+        t.value = value
+    return t
+
+
 def t_hexValue(t):
     r'[+-]?0[xX][0-9a-fA-F]+'
-    t.value = int(t.value, 16)
-    return t
+    return _integer_token(t, t.value, 16)
 
 
 def t_binaryValue(t):
@@ -266,7 +298,7 @@ def t_binaryValue(t):
         t.type = 'error'
         # Setting error causes the value to be automatically skipped
     else:
-        t.value = int(t.value[0:-1], 2)
+        _integer_token(t, t.value[0:-1], 2)
     return t
 
 
@@ -281,7 +313,7 @@ def t_octalValue(t):
         t.type = 'error'
         # Setting error causes the value to be automatically skipped
     else:
-        t.value = int(t.value, 8)
+        _integer_token(t, t.value, 8)
     return t
 
 
@@ -289,8 +321,7 @@ def t_octalValue(t):
 # the 0. If not at the end, 0 would match at the begin of e.g. an octal value.
 def t_decimalValue(t):
     r'[+-]?([1-9][0-9]*|0)'
-    t.value = int(t.value)
-    return t
+    return _integer_token(t, t.value, 10)
 
 
 simpleEscape = r"""[bfnrt'"\\]"""
